@@ -495,6 +495,20 @@ def fold(t, env, calls=None):
         if h is not None:
             return h(*[fold(x, env, calls) for x in t[2]])
         # built-in models of a few pure core helpers on constant data
+        last = t[1].split("::")[-1]
+        if t[1].startswith("core::num::<impl ") and last in ("abs", "abs_diff", "min", "max", "pow", "signum") and len(t[2]) in (1, 2):
+            vals = [_num(fold(x, env, calls)) for x in t[2]]
+            if all(isinstance(v, int) and not isinstance(v, bool) for v in vals):
+                if last == "abs":
+                    return abs(vals[0])
+                if last == "abs_diff":
+                    return abs(vals[0] - vals[1])
+                if last == "min":
+                    return min(vals)
+                if last == "max":
+                    return max(vals)
+                if last == "signum":
+                    return (vals[0] > 0) - (vals[0] < 0)
         if t[1].endswith("::contains") and "ops::range::Range" in t[1] and len(t[2]) == 2:
             r = fold(t[2][0], env, calls)
             x = _num(fold(t[2][1], env, calls))
